@@ -160,3 +160,29 @@ func GenMWCases(r *vh.Rand, n int) []string {
 	}
 	return out
 }
+
+// ---------------------------------------------------------------------------------------
+// decoder-level cases with Release ("<p>!<keep>")
+
+func withRelease(r *vh.Rand, c string) string {
+	f := strings.SplitN(c, " ", 3)
+	if len(f) < 3 {
+		return c
+	}
+	p := strings.TrimSuffix(f[1], "L")
+	c = f[0] + " " + p + "!" + strconv.Itoa(r.PickInt([]int{0, 0, 1, 2, 3})) + " " + f[2]
+	if r.Chance(1, 3) {
+		c = withCfg(r, c)
+	}
+	return c
+}
+
+// GenReleaseCases: n cases per format
+func GenReleaseCases(r *vh.Rand, n int) []string {
+	var out []string
+	for i := 0; i < n; i++ {
+		out = append(out, withRelease(r, GenURICase(r)), withRelease(r, GenURIPostCase(r)),
+			withRelease(r, GenRawCase(r)), withRelease(r, GenJSONCase(r)))
+	}
+	return out
+}
